@@ -73,6 +73,40 @@ theorem lookup_mem {α : Type} (l : List (Nat × α)) (k : Nat) (v : α) (h : l.
       simp only [Option.some.injEq] at h
       subst this; subst h; simp
 
+theorem mem_lookup_isSome {α : Type} (l : List (Nat × α)) (k : Nat) (v : α) (h : (k, v) ∈ l) :
+    (l.lookup k).isSome = true := by
+  induction l with
+  | nil => simp at h
+  | cons e l ih =>
+    obtain ⟨a, b⟩ := e
+    simp only [List.lookup_cons]
+    cases hk : k == a
+    · have hne : k ≠ a := by simpa using hk
+      simp only [List.mem_cons, Prod.mk.injEq] at h
+      rcases h with h | h
+      · exact absurd h.1 hne
+      · exact ih h
+    · rfl
+
+/-- own placement ids decode to a domain position and encode back -/
+theorem own_roundtrip (p : Nat) (h : ownPlacement p = true) :
+    Dom (placementToPos p).1 (placementToPos p).2 ∧
+    placementId (placementToPos p).1 (placementToPos p).2 = p ∧
+    (placementToPos p).1 + 1 < 18446744073709551616 ∧ (placementToPos p).2 + 1 < 18446744073709551616 := by
+  simp only [ownPlacement, Bool.and_eq_true, decide_eq_true_eq] at h
+  have hd : Dom (placementToPos p).1 (placementToPos p).2 := by
+    simp only [Dom, placementToPos, KITTY_MAX_DIM]; omega
+  refine ⟨hd, ?_, ?_, ?_⟩
+  · rw [placementId_dom _ _ hd]; simp only [placementToPos, KITTY_MAX_DIM]; omega
+  · simp only [placementToPos, KITTY_MAX_DIM]; omega
+  · simp only [placementToPos, KITTY_MAX_DIM]; omega
+
+theorem placementToPos_id (row col : Nat) (hdom : Dom row col) : placementToPos (placementId row col) = (row, col) := by
+  rw [placementId_dom row col hdom]
+  obtain ⟨hr, hc, _⟩ := hdom
+  simp only [placementToPos, KITTY_MAX_DIM, Nat.add_sub_cancel]
+  ext <;> simp <;> omega
+
 /-! ## the invariant -/
 
 structure Inv (hash : Image → UInt64) (S : List Image) (h : Handler) (m : Mon) : Prop where
@@ -84,6 +118,22 @@ structure Inv (hash : Image → UInt64) (S : List Image) (h : Handler) (m : Mon)
 theorem Inv.contains {hash : Image → UInt64} {S : List Image} {h : Handler} {m : Mon} (inv : Inv hash S h m)
     (id : Nat) : (m.live.lookup id).isSome = h.contains id := by
   rw [inv.live, lookup_map]; unfold Handler.contains; simp
+
+/-- an image whose id the handler does not hold has a content the terminal does not hold under any id -/
+theorem Inv.fresh_content {hash : Image → UInt64} {S : List Image} {h : Handler} {m : Mon} (inv : Inv hash S h m)
+    (hid : IdFaithful hash S) (img : Image) (hS : img ∈ S) (hc : h.contains (idOf hash img) = false) :
+    ∀ e ∈ m.live, e.2 ≠ content img := by
+  intro e he hce
+  rw [inv.live] at he
+  obtain ⟨e2, he2, rfl⟩ := List.mem_map.mp he
+  obtain ⟨h1, h2, _⟩ := inv.imgs e2 he2
+  have hq : idOf hash e2.2 = idOf hash img := (hid e2.2 h2 img hS).mpr hce
+  have : (h.imgs.lookup (idOf hash img)).isSome = true := by
+    apply mem_lookup_isSome _ _ e2.2
+    rw [← hq, ← h1]
+    exact he2
+  unfold Handler.contains at hc
+  rw [this] at hc; cases hc
 
 /-! ## feeding single commands -/
 
@@ -100,7 +150,7 @@ theorem chunkRules_ok (img : Image) : chunkRules (chunkSizes img) = true := by
   exact ⟨fun n hn => (chunkSizes_ok img n hn).1, fun n hn => (chunkSizes_ok img n hn).2⟩
 
 theorem feed_tx (m : Mon) (id : Nat) {img : Image} (wf : WF img) (hne : img.isEmpty = false) (h1 : id ≠ 0)
-    (h2 : (m.live.lookup id).isSome = false) :
+    (h2 : (m.live.lookup id).isSome = false) (h3 : ∀ e ∈ m.live, e.2 ≠ content img) :
     m.feed (txCmd id img) = some { m with live := (id, content img) :: m.live } := by
   have hd := nonempty_dims wf hne
   have hl := content_length img wf
@@ -111,7 +161,10 @@ theorem feed_tx (m : Mon) (id : Nat) {img : Image} (wf : WF img) (hne : img.isEm
   simp only [txCmd, Mon.feed]
   rw [if_pos]
   · rfl
-  · refine ⟨h1, trivial, trivial, trivial, by rw [hn]; rfl, chunkRules_ok img, hl, hd.1, hd.2⟩
+  · refine ⟨h1, trivial, trivial, trivial, by rw [hn]; rfl, ?_, chunkRules_ok img, hl, hd.1, hd.2⟩
+    rw [List.all_eq_true]
+    intro e he
+    exact bne_iff_ne.mpr (h3 e he)
 
 /-! ## one step of the history -/
 
@@ -171,6 +224,7 @@ theorem step_draw {h : Handler} {m : Mon} (inv : Inv hash S h m) (img : Image) (
         simp [drawCmds, hc']
       rw [hcmds] at hk
       have hf1 := feed_tx m (idOf hash img) wf he (idOf_ne_zero hash img) hlive
+        (inv.fresh_content hid img hS hc')
       simp only [txCmd] at hf1
       have hlook : (((idOf hash img, content img) :: m.live).lookup (idOf hash img)) = some (content img) := by
         simp
@@ -282,7 +336,6 @@ theorem Inv.remove {h : Handler} {m : Mon} (inv : Inv hash S h m) (id : Nat) :
   simp only [inv.live, List.filter_map]
   rfl
 
-omit hid in
 theorem step_resp {h : Handler} {m : Mon} (inv : Inv hash S h m) (id : Nat) (placement : Option Nat)
     (error : Bool) :
     ∃ m', m.step (toSpec (.resp id placement error)) (step hash h (.resp id placement error)).2 = some m' ∧
@@ -298,7 +351,8 @@ theorem step_resp {h : Handler} {m : Mon} (inv : Inv hash S h m) (id : Nat) (pla
     cases hl : h.imgs.lookup id with
     | none =>
       refine ⟨{ m with live := m.live.filter (fun e => e.1 != id) }, ?_, ?_⟩
-      · simp only [toSpec, step, handleEvent, if_true, hl, Mon.step, hk0, Mon.feedAll]
+      · cases placement <;>
+          simp [toSpec, step, handleEvent, hl, Mon.step, hk0, Mon.feedAll]
       · simpa [step, handleEvent, hl] using inv1
     | some img =>
       cases placement with
@@ -327,7 +381,8 @@ theorem step_resp {h : Handler} {m : Mon} (inv : Inv hash S h m) (id : Nat) (pla
           rw [inv1.contains]
           show (List.lookup id (h.imgs.filter (fun e => e.1 != id))).isSome = false
           rw [lookup_filter_self]; rfl
-        have hf1 := feed_tx { m with live := m.live.filter (fun e => e.1 != id) } id wf hne hidnz hlive
+        have hfresh := inv1.fresh_content hid img hS (by rw [← hidq]; exact hc2)
+        have hf1 := feed_tx { m with live := m.live.filter (fun e => e.1 != id) } id wf hne hidnz hlive hfresh
         have hf2 := feed_put { live := (id, content img) :: m.live.filter (fun e => e.1 != id), placed := m.placed } id
           (placementId (placementToPos pl).1 (placementToPos pl).2) hidnz (placementId_ne_zero _ _) (by simp)
         have hstate : (step hash h (.resp id (some pl) true)).1.imgs
@@ -341,19 +396,56 @@ theorem step_resp {h : Handler} {m : Mon} (inv : Inv hash S h m) (id : Nat) (pla
               ++ (draw hash h2 img (placementToPos pl).1 (placementToPos pl).2).2 ++ [27, 56] := by
           simp only [step, handleEvent, if_true, hl, Option.map_some]
           rfl
-        refine ⟨{ live := (id, content img) :: m.live.filter (fun e => e.1 != id), placed := m.placed }, ?_, ?_⟩
-        · rw [hbytes]
-          simp only [txCmd] at hf1 hk
-          simp only [toSpec, Mon.step, hk, Mon.feedAll, hf1, hf2]
-        · refine ⟨?_, ?_, inv.placed⟩
-          · rw [hstate, List.map_cons]
-            exact congrArg _ inv1.live
-          · rw [hstate]
-            intro e he
-            simp only [List.mem_cons] at he
-            rcases he with he | he
-            · subst he; exact ⟨hidq, hS, hne⟩
-            · exact inv1.imgs e he
+        have hlook : List.lookup id ((id, content img) :: m.live.filter (fun e => e.1 != id)) = some (content img) := by
+          simp
+        have himgs : ∀ e ∈ (step hash h (.resp id (some pl) true)).1.imgs,
+            e.1 = idOf hash e.2 ∧ e.2 ∈ S ∧ e.2.isEmpty = false := by
+          rw [hstate]
+          intro e he
+          simp only [List.mem_cons] at he
+          rcases he with he | he
+          · subst he; exact ⟨hidq, hS, hne⟩
+          · exact inv1.imgs e he
+        have hlivemap : (id, content img) :: m.live.filter (fun e => e.1 != id)
+            = (step hash h (.resp id (some pl) true)).1.imgs.map (fun e => (e.1, content e.2)) := by
+          rw [hstate, List.map_cons]
+          exact congrArg _ inv1.live
+        simp only [txCmd] at hf1 hk
+        cases hown : ownPlacement pl with
+        | false =>
+          refine ⟨{ live := (id, content img) :: m.live.filter (fun e => e.1 != id), placed := m.placed }, ?_, ?_⟩
+          · rw [hbytes]
+            simp only [toSpec, Mon.step, hk, Mon.feedAll, hf1, hf2, hown, or_true, if_true]
+          · exact ⟨hlivemap, himgs, inv.placed⟩
+        | true =>
+          obtain ⟨hdom, hrt, hb1, hb2⟩ := own_roundtrip pl hown
+          have hct := cursorTarget_wrapped (placementToPos pl).1 (placementToPos pl).2 hb1 hb2
+            ((draw hash h2 img (placementToPos pl).1 (placementToPos pl).2).2 ++ [27, 56])
+          rw [← List.append_assoc] at hct
+          rw [hrt] at hk hf2
+          have hall : m.placed.all (fun q => !(q.id == id && q.pid == pl)
+              || (q.row == (placementToPos pl).1 && q.col == (placementToPos pl).2)) = true := by
+            rw [List.all_eq_true]
+            intro q hq
+            obtain ⟨_, _, _, _, hqp, hqd⟩ := inv.placed q hq
+            by_cases hh : q.id = id ∧ q.pid = pl
+            · have := placementToPos_id q.row q.col hqd
+              rw [← hqp, hh.2] at this
+              simp [this]
+            · have : (q.id == id && q.pid == pl) = false := by
+                rw [Bool.eq_false_iff]; intro hc; simp only [Bool.and_eq_true, beq_iff_eq] at hc; exact hh hc
+              simp [this]
+          refine ⟨{ live := (id, content img) :: m.live.filter (fun e => e.1 != id),
+                    placed := ⟨content img, (placementToPos pl).1, (placementToPos pl).2, id, pl⟩ :: m.placed }, ?_, ?_⟩
+          · rw [hbytes]
+            simp only [toSpec, Mon.step, hk, Mon.feedAll, hf1, hf2, hown, drawShape, hct, hlook, hall,
+              Bool.true_eq_false, or_false, if_true, and_self, if_false, List.cons_ne_nil]
+          · refine ⟨hlivemap, himgs, ?_⟩
+            intro q hq
+            simp only [List.mem_cons] at hq
+            rcases hq with hq | hq
+            · subst hq; exact ⟨img, hS, rfl, hidq, hrt.symm, hdom⟩
+            · exact inv.placed q hq
 
 omit hwf hid in
 theorem step_other {h : Handler} {m : Mon} (inv : Inv hash S h m) :
